@@ -206,7 +206,14 @@ class FnTranslator:
         if key in self.ms.expr_map:
             return self.ms.expr_map[key]
         if isinstance(e, ast.JoinedStr):
-            return '"<f-string>"', "str"  # the text of messages is not modelled
+            # the text of a message is not modelled, but what is interpolated must be harmless to evaluate: a known local,
+            # or a call the spec lists; anything else (attribute access, method call) could raise and is refused
+            for part in e.values:
+                if isinstance(part, ast.FormattedValue):
+                    if isinstance(part.value, ast.Name) and part.value.id in self.env:
+                        continue
+                    self.expr(part.value, pre)
+            return '"<f-string>"', "str"
         if isinstance(e, ast.Constant):
             if e.value is True:
                 return "true", "bool"
@@ -643,13 +650,18 @@ class FnTranslator:
                 raise Unsupported("try statement other than a single, un-nested `except Exception`")
             flag = self.fresh("raised")
             self.emit(ind, f"let mut {flag} := false")
+            hname = s.handlers[0].name
             self.try_flag = flag
             self._in_try_body = True
             self.block(s.body, ind)
             self._in_try_body = False
             self.try_flag = None
             self.emit(ind, f"if {flag} then")
+            if hname:
+                self.env[hname] = "obj"
             self.block(s.handlers[0].body, ind + 1)
+            if hname:
+                self.env.pop(hname, None)
             return
         raise Unsupported(f"statement {type(s).__name__}: {ast.unparse(s)[:80]}")
 
